@@ -31,4 +31,16 @@ GROUPS += [
  dict(_MS, name='ms_set_expert_frame_duration', entry='h_ms_set_expert_frame_duration', what='multistream OPUS_SET_EXPERT_FRAME_DURATION validates its argument'),
  dict(_MS, name='ms_set_force_channels', entry='h_ms_set_force_channels', what='multistream OPUS_SET_FORCE_CHANNELS: all streams or none'),
 ]
+
+for _fs in (8000, 12000, 16000, 24000, 48000):
+    GROUPS.append(dict(name='encode_native_decisions_fs%d' % _fs, cls='F', tu='C11_encode_native.c', entry='h_encode_native', dfcc=False, canary='real', expect_canaries=5, cex=False,
+        defines=['-DVERIF_FS=%d' % _fs, '-U__SSE__'], unwind=9, timeout=1800, mem_gb=16, cbmc_flags=['--object-bits', '10', '--no-array-field-sensitivity'],
+        replace_calls=['opus_encode_frame_native:verif_encode_frame_native', 'compute_stereo_width:verif_compute_stereo_width',
+                       'is_digital_silence:verif_is_digital_silence', 'compute_frame_energy:verif_compute_frame_energy'],
+        functions=['opus_encode_native', 'user_bitrate_to_bitrate', 'compute_equiv_rate', 'decide_fec', 'gen_toc'],
+        trusted=['ASSUMED frame contract (stub) of opus_encode_frame_native: arbitrary result and stream state, writes no user setting; checks at its entry what the decision chain hands over',
+                 'stubs with arbitrary results for compute_stereo_width, is_digital_silence, compute_frame_energy, run_analysis, tonality_get_info, celt_encoder_ctl, silk_InitEncoder, opus_packet_pad, opus_repacketizer_*',
+                 'state invariant settings_ok/stream_ok assumed at entry (re-established at exit: asserted)'],
+        bounds='Fs = %d, every legal frame duration, any encoder state satisfying the invariant, any buffer size <= 4000; all loops unwound completely (<= 8 iterations, unwinding assertions on)' % _fs,
+        what='decision chain of opus_encode_native: forced channels/bandwidth/mode honoured at the frame coder, durations add up, user settings untouched'))
 META = {}
